@@ -96,6 +96,9 @@ func (w *world) stepHeight(forceTxs int) {
 			w.authAttack(g)
 		}
 		w.submit(g)
+		if c.Prop == "C19" && t.Chance(1, 2) {
+			w.corruptTx(g)
+		}
 		if adv && !advFirst {
 			w.authAttack(g)
 		}
@@ -190,7 +193,9 @@ func (w *world) stepHeight(forceTxs int) {
 			c.Fault("node_misses_block")
 			continue
 		}
-		w.deliver(n, qc, false, "live")
+		if w.deliver(n, qc, false, "live") && c.Prop == "C19" && t.Chance(1, 2) {
+			w.corruptBlockMessage(n, qc)
+		}
 	}
 	w.chain = append(w.chain, &chainRec{height: h, blockHash: pr.block.BlockHeader.Hash, qc: qc, proposer: p.idx})
 	w.checkIncluded(h, pr.block.Transactions)
@@ -341,6 +346,9 @@ func (w *world) afterCommitOracles(what string) {
 			w.checkStaking(n, s, what)
 			w.checkCommittee(n, s, what)
 			w.checkDex(n, s, what)
+			if c.Prop == "C19" {
+				w.checkKeys(n, s.keys, what)
+			}
 			continue
 		}
 		c.Check()
